@@ -79,14 +79,15 @@ CLAIMED = {
         note="float64 as exact reals; meshes <= 3x2 / 2x2x2 quick, <= 4x3 / 3x2x2 thorough; D22 (pad wider than the domain "
              "with different rules on the two sides of an axis) is a known finding confined to the fc-widepad-mixed items."),
     "C14": dict(
-        text="OverhangFilter: the direction-string parser is searched by CrossHair (z3) over all str of length <= 3 "
-             "(counterexamples replayed; a reachability twin must be refuted); direction vectors with a symbolic positive "
+        text="OverhangFilter: the direction-string parser runs on a symbolic str of unbounded length whose membership tests are "
+             "z3 string-theory atoms (all 11 paths compared with the clause; witnesses are concrete strings) and is "
+             "cross-searched by CrossHair (len <= 1 exhausted, a reachability twin must be refuted); direction vectors with a symbolic positive "
              "magnitude, the layer sweep with symbolic densities and parameters (p, q, shift, backshift, eps) on 2-D and "
              "3-D meshes in all 4/6 directions compared entry-wise by z3 with the recursive reference written per element, "
              "plus mirror/axis-swap equivariance.",
         note="float64 as exact reals, POW uninterpreted with ground axioms; meshes <= 3x2 and 3x2x2 quick, <= 4x3 / 2x2x3 "
-             "thorough; the len <= 3 CrossHair condition is a refutation search ('Not confirmed' is reported as "
-             "inconclusive, the len <= 1 condition is exhausted); a concrete 820-string enumeration is a cross-check only."),
+             "thorough; the len <= 3 CrossHair condition (thorough tier) is a refutation search ('Not confirmed' is reported "
+             "as inconclusive); a concrete 820-string enumeration is a cross-check only."),
     "C08": dict(
         text="AssembleGeneral/Stiffness/Mass/Poisson executed with symbolic scaling, element sizes, material data, element "
              "matrices and boundary values; the assembled matrix is compared entry-wise with an independent scatter; "
